@@ -1,4 +1,5 @@
 import Np.Model.Shape
+import Np.Model.Sort
 /-! numpy's index arithmetic for the common shape functions (C09), Mathlib-free and executable.
 
 Every single-operand function returns `some (outShape, idx)` where `idx` lists, for every output flat position
@@ -37,6 +38,27 @@ def moveaxisPerm (n src dst : Nat) : List Nat :=
 /-- `numpy.moveaxis(a, src, dst)` for non-negative in-range axes -/
 def moveaxisF (shape : List Nat) (src dst : Nat) : Option (List Nat × List Nat) :=
   if src < shape.length && dst < shape.length then transposeF shape (moveaxisPerm shape.length src dst)
+  else none
+
+/-- `sorted(zip(destination, source))` (destinations are distinct, so sorting by destination is enough) -/
+def sortPairs (ps : List (Nat × Nat)) : List (Nat × Nat) := Np.Sort.isort (fun a b => decide (a.1 ≤ b.1)) ps
+
+/-- all entries different -/
+def distinctB : List Nat → Bool
+  | [] => true
+  | x :: xs => !xs.contains x && distinctB xs
+
+/-- the axis order `numpy.moveaxis` hands to `transpose` for sequences of axes: the axes that are not moved in their
+order, then every (destination, source) pair - sorted by destination - inserted at its destination -/
+def moveaxisSeqPerm (n : Nat) (src dst : List Nat) : List Nat :=
+  (sortPairs (List.zip dst src)).foldl (fun order p => order.insertIdx p.1 p.2)
+    ((List.range n).filter fun a => !src.contains a)
+
+/-- `numpy.moveaxis(a, source, destination)` for sequences of non-negative in-range axes: `none` where numpy raises
+(different lengths, a repeated axis, an axis out of range) -/
+def moveaxisSeqF (shape : List Nat) (src dst : List Nat) : Option (List Nat × List Nat) :=
+  if src.length == dst.length && distinctB src && distinctB dst && src.all (· < shape.length) && dst.all (· < shape.length) then
+    transposeF shape (moveaxisSeqPerm shape.length src dst)
   else none
 
 def swapAxis (a b k : Nat) : Nat := if k == a then b else if k == b then a else k
@@ -196,5 +218,17 @@ example : stackF [[2], [2], [2]] 1 = some ([2, 3], [(0, 0), (1, 0), (2, 0), (0, 
 example : stackF [[2], [3]] 0 = none := by decide
 example : stackF [[2], [2]] 2 = none := by decide
 example : gatherIdxN [[2, 1], [2, 2]] [(0, 0), (1, 0), (1, 1), (0, 1), (1, 2), (1, 3)] = [1, 3, 4, 2, 5, 6] := by decide
+
+-- numpy.moveaxis with sequences (numpy 2 on arange(24).reshape(2, 3, 4))
+example : moveaxisSeqF [2, 3, 4] [0, 1] [1, 0] = some ([3, 2, 4], [0, 1, 2, 3, 12, 13, 14, 15, 4, 5, 6, 7, 16, 17, 18, 19, 8, 9, 10, 11, 20, 21, 22, 23]) := by decide
+example : (moveaxisSeqF [2, 3, 4] [0, 1, 2] [2, 1, 0]).map (·.1) = some [4, 3, 2] := by decide
+example : (moveaxisSeqF [2, 3, 4] [2, 0] [0, 1]).map (·.1) = some [4, 2, 3] := by decide
+example : moveaxisSeqPerm 3 [0, 1] [1, 0] = [1, 0, 2] := by decide
+example : moveaxisSeqPerm 3 [0, 1, 2] [2, 1, 0] = [2, 1, 0] := by decide
+example : moveaxisSeqPerm 4 [3, 0] [1, 2] = [1, 3, 0, 2] := by decide
+example : moveaxisSeqF [2, 3, 4] [0, 0] [1, 2] = none := by decide
+example : moveaxisSeqF [2, 3, 4] [0] [1, 2] = none := by decide
+example : moveaxisSeqF [2, 3, 4] [0] [3] = none := by decide
+example : moveaxisSeqF [2, 3, 4] [] [] = moveaxisSeqF [2, 3, 4] [1] [1] := by decide
 
 end Np.ShapeFns
